@@ -616,6 +616,9 @@ func (env *SpecEnv) evalQuant(n *SNode) Val {
 			off = env.absProbe.nestedOff
 		}
 		env.absProbe = saved
+		if off != "" && termMentions(off, names[0]) {
+			off = "" // the sequence itself depends on the bound variable (e.g. u[j].next[j]): stay relative
+		}
 		if off != "" && off != "0" {
 			*env.qcount++
 			g := fmt.Sprintf("g_qabs_%d", *env.qcount)
@@ -1375,4 +1378,22 @@ func specUsesLen(sf *SpecFunc, param string) bool {
 		return false
 	}
 	return walk(sf.Body)
+}
+
+// termMentions: the symbol occurs in the term as a whole token
+func termMentions(term, sym string) bool {
+	for i := 0; ; {
+		k := strings.Index(term[i:], sym)
+		if k < 0 {
+			return false
+		}
+		k += i
+		e := k + len(sym)
+		okL := k == 0 || strings.ContainsRune(" ()", rune(term[k-1]))
+		okR := e == len(term) || strings.ContainsRune(" ()", rune(term[e]))
+		if okL && okR {
+			return true
+		}
+		i = e
+	}
 }
